@@ -267,6 +267,9 @@ def run(prop, tier, t0, spec):
         obs += k_obs
         outs.update(k_outs)
         extra["kani"] = info
+        stubs = sorted(set(x for v in info.get("stubs", {}).values() for x in v))
+        if stubs:
+            assumptions.append("Kani stubs used by harnesses of this property (each stubbed function has its own obligation or is listed above): " + "; ".join(stubs))
     for fn in spec.get("scans", ()):
         obs += fn(prop)
     level = spec.get("level", "proof")
